@@ -197,16 +197,33 @@ def clock_rules(F, R):
             ok = not stores and not loops and all(b.dominates(t['otherwise'], x) for x, _ in st_all) and bool(st_all)
             why = 'a paused clock still changes its state (%s)' % stores[:2]
         R.check(ok, 'B.C05.pause', 'Clock::update', why, detail='!ticking => return None before any state change', where=b.file)
-    rb = F.body('clock::Clock::reset')
-    if R.check(rb is not None, 'B.C05.reset', 'anchor', 'Clock::reset not found'):
-        st = [describe_rv_(rb, s) for x, si, s in rb.stmts() if s['k'] in ('assign',) and s['lhs']['p'] and pretty_place(rb, s['lhs']) == '(*self).state']
-        R.check(st == ['clock::State::NotStarted'], 'B.C05.reset', 'Clock::reset', 'reset leaves state %s' % st, detail='state = NotStarted (time reads as zero)')
-    ob = F.body('clock::Clock::on_start_processing')
+    # reset / publish, decided on a view of Clock::on_start_processing with its private methods spliced in (so that it
+    # does not matter whether `reset` / `update_shared` are methods of their own or written in place)
+    ob = F.inlined_view('clock::Clock::on_start_processing', depth=2, pred=lambda hp: hp.startswith('clock::Clock::'))
     if R.check(ob is not None, 'B.C05.reset', 'anchor:osp', 'Clock::on_start_processing not found'):
-        rs = blocks_of(calls_to(ob, 'clock::Clock::reset', suffix=False))
-        us = blocks_of(calls_to(ob, 'clock::Clock::update_shared', suffix=False))
-        ok = len(rs) == 1 and len(us) == 1 and all(ob.dominates(us[0], r) for r in ob.return_blocks()) and order_ok(ob, rs, us)
-        R.check(ok, 'B.C05.reset', 'publish', 'the handle copy of the time is not refreshed after commands on every callback', detail='reset ≺ update_shared on every path')
+        from .c07 import origin_pl, last_field
+        rd = []
+        for x, t in ob.calls():
+            if (callee_path(t) or '') == 'command::CommandReader::<T>::read':
+                lf = last_field(origin_pl(ob, t['args'][0]) or {})
+                if lf and lf[0] == 'reset':
+                    rd.append(x)
+        st = [(x, describe_rv_(ob, s)) for x, si, s in ob.stmts() if s['k'] == 'assign' and s['lhs']['p'] and pretty_place(ob, s['lhs']) == '(*self).state']
+        R.check(len(rd) == 1 and [d for _, d in st] == ['clock::State::NotStarted'] and ob.dominates(rd[0], st[0][0]) and not ob.in_loop(st[0][0]),
+                'B.C05.reset', 'Clock::reset', 'the reset command leaves state %s (read sites: %d)' % ([d for _, d in st], len(rd)),
+                detail='reset.read() is Some => state = NotStarted (time reads as zero)')
+        # the handle copy: the stores of ticks and of the fraction into the shared atomics
+        pub = {}
+        for x, t in ob.calls():
+            if (callee_path(t) or '').endswith('::store'):
+                lf = last_field(origin_pl(ob, t['args'][0]) or {})
+                if lf and lf[1] == 'clock::ClockShared' and lf[0] in ('ticks', 'fractional_position'):
+                    pub.setdefault(lf[0], []).append(x)
+        rets = ob.return_blocks()
+        ok = bool(st) and all(nm in pub and any(all(ob.dominates(x, r) for r in rets) and order_ok(ob, [st[0][0]], [x]) for x in pub[nm])
+                              for nm in ('ticks', 'fractional_position'))
+        R.check(ok, 'B.C05.reset', 'publish', 'the handle copy of the time is not refreshed after commands on every callback',
+                detail='reset ≺ shared.ticks / shared.fractional_position stores on every path')
     hb = F.body('clock::handle::ClockHandle::stop')
     if R.check(hb is not None, 'B.C05.reset', 'anchor:stop', 'ClockHandle::stop not found'):
         from .c07 import origin_pl, last_field
@@ -217,6 +234,11 @@ def clock_rules(F, R):
                 w.append((lf[0] if lf else '?', describe(hb, t['args'][1])))
         R.check(('set_ticking', 'False') in w and any(n == 'reset' for n, _ in w), 'B.C05.reset', 'ClockHandle::stop',
                 'stop() writes %s (must pause and reset)' % w, detail={'writes': w})
+
+
+def self_field_of_call_(b, t):
+    from ..rules import self_field_of_call
+    return self_field_of_call(b, t, 0) or ''
 
 
 def describe_rv_(b, s):
